@@ -471,8 +471,8 @@ Section Top.
   Proof. unfold new_resolver; cbn [r_iif]. apply build_iif_nil. intros k Hk. apply (ef_no_iif _ EF). exact Hk. Qed.
 
   (* one requested package: the walk's list survives the de-duplication *)
-  Lemma get_pkg_closure F w sched dq sel ex dq' sel' i deps :
-    get_pkg R w sched dq sel ex = Ok (dq', sel', i, deps) -> sel_ok R sel ->
+  Lemma get_pkg_closure F w dq sel ex dq' sel' i deps :
+    get_pkg R w dq sel ex = Ok (dq', sel', i, deps) -> sel_ok R sel ->
     valid R i /\ Forall (valid R) deps /\ sel_ok R sel' /\
     (incl deps F -> In i F -> sel_in sel F -> sel_in sel' F /\ forall m, m = i \/ In m deps -> Sat U F m).
   Proof.
@@ -483,7 +483,9 @@ Section Top.
       as [[st' ds]| | |] eqn:EG; cbn [rbind] in H; try discriminate.
     apply (resolve_package_spec R dq w i0 (new_resolver_wf U)) in ER. destruct ER as [_ [Vi _]].
     destruct (get_deps_closure U EF F _ _ _ _ _ _ _ EG Vi Hsel) as [_ G2 G3 G4]. cbn [st_selected] in G4.
-    destruct (dedup_by_name R ds) as [l added] eqn:ED. cbn [rbind] in H. rewrite (iif_loop_nil _ _ _ _ iif_nil) in H.
+    destruct (dedup_by_name R ds) as [l added] eqn:ED. cbn [rbind] in H.
+    destruct (iif_loop (fuel_bound R) R 0 l added) as [deps0| | |] eqn:EI; cbn [rbind] in H; try discriminate.
+    apply (iif_loop_nil_ok _ _ _ _ _ _ iif_nil) in EI. subst deps0.
     assert (Hl : forall j, In j l -> In j ds) by (intros j Hj; apply (dedup_sub R); rewrite ED; exact Hj).
     assert (Hn : forall j, In j ds -> In (nm R j) (List.map (nm R) l)).
     { intros j Hj. pose proof (dedup_names R ds j Hj) as Hn. rewrite ED in Hn. exact Hn. }
@@ -500,20 +502,20 @@ Section Top.
     destruct (B m (or_intror (Hl m Hm))) as [[]|C]; exact C.
   Qed.
 
-  Lemma phase2_closure dq0 : forall ws scheds dq sel acc S,
-    phase2 R ws scheds dq sel acc = Ok S -> incl dq0 dq -> Inv R dq0 acc -> sel_ok R sel -> sel_in sel S ->
+  Lemma phase2_closure dq0 : forall ws dq sel acc S,
+    phase2 R ws dq sel acc = Ok S -> incl dq0 dq -> Inv R dq0 acc -> sel_ok R sel -> sel_in sel S ->
     forall m, In m S -> In m (fst (fst acc)) \/ Sat U S m.
   Proof.
     pose proof (new_resolver_wf2 U) as Hwf.
-    induction ws as [|w ws IH]; intros scheds dq sel acc S H Hin HI Hsel HF m Hm.
+    induction ws as [|w ws IH]; intros dq sel acc S H Hin HI Hsel HF m Hm.
     - simpl in H. inversion H; subst. left. exact Hm.
     - cbn [phase2] in H.
-      destruct (get_pkg R w (hd [] scheds) dq sel (snd acc)) as [[[[dq' sel'] i] deps]| | |] eqn:EG; cbn [rbind] in H; try discriminate.
-      pose proof (get_pkg_spec R w (hd [] scheds) dq sel (snd acc) dq' sel' i deps dq0 Hwf Hin EG) as [G1 [_ [G3 G4]]].
+      destruct (get_pkg R w dq sel (snd acc)) as [[[[dq' sel'] i] deps]| | |] eqn:EG; cbn [rbind] in H; try discriminate.
+      pose proof (get_pkg_spec R w dq sel (snd acc) dq' sel' i deps dq0 Hwf Hin EG) as [G1 [_ [G3 G4]]].
       destruct (track_fold_inv R dq0 deps acc HI G4) as [J1 _].
       destruct (track_inv R dq0 i _ J1 G3) as [K1 _].
-      destruct (phase2_inv R dq0 Hwf _ _ _ _ _ _ H G1 K1) as [_ [L2 [L3 _]]].
-      destruct (get_pkg_closure S _ _ _ _ _ _ _ _ _ EG Hsel) as [Vi [Vd [Hsel' C]]].
+      destruct (phase2_inv R dq0 Hwf _ _ _ _ _ H G1 K1) as [_ [L2 [L3 _]]].
+      destruct (get_pkg_closure S _ _ _ _ _ _ _ _ EG Hsel) as [Vi [Vd [Hsel' C]]].
       rewrite Forall_forall in L2, Vd.
       (* a tracked name is a member *)
       assert (Mem : forall j, valid R j ->
@@ -525,17 +527,17 @@ Section Top.
       assert (HdS : incl deps S) by (intros j Hj; apply Mem; [apply Vd; exact Hj | apply T1; apply T4; exact Hj]).
       assert (HiS : In i S) by (apply Mem; [exact Vi | exact T2]).
       destruct (C HdS HiS HF) as [HF' CS].
-      destruct (IH _ _ _ _ _ H G1 K1 Hsel' HF' m Hm) as [A|A]; [|right; exact A].
+      destruct (IH _ _ _ _ H G1 K1 Hsel' HF' m Hm) as [A|A]; [|right; exact A].
       apply track_members in A. destruct A as [A|A]; [|right; apply CS; left; exact A].
       apply track_fold_members in A. destruct A as [A|A]; [left; exact A | right; apply CS; right; exact A].
   Qed.
 
-  Lemma resolve_closure W dq0 scheds S : resolve U W dq0 scheds = Ok S -> forall m, In m S -> Sat U S m.
+  Lemma resolve_closure W dq0 S : resolve U W dq0 = Ok S -> forall m, In m S -> Sat U S m.
   Proof.
     unfold resolve, resolve_with. intros H m Hm.
     destruct (constrain R (List.map cook_dep W) dq0) as [dq1| | |] eqn:EC; cbn [rbind] in H; try discriminate.
     destruct (phase1 _ R _ dq1 []) as [[dq2 depmap]| | |] eqn:E1; cbn [rbind] in H; try discriminate.
-    destruct (phase2_closure dq2 _ _ _ _ _ _ H (incl_refl _)) with (m := m) as [[]|A]; try assumption.
+    destruct (phase2_closure dq2 _ _ _ _ _ H (incl_refl _)) with (m := m) as [[]|A]; try assumption.
     - simpl. split; [constructor|]. split; [intros n; split; intros []|constructor].
     - intros n j E. discriminate.
     - intros n j E. discriminate.
@@ -543,13 +545,13 @@ Section Top.
 End Top.
 
 (* ---- the fourth clause, in the terms of the Spec ------------------------------------------- *)
-Lemma closed_partial_deps U W dq0 scheds S :
-  envelope_b U W = true -> resolve U W dq0 scheds = Ok S ->
+Lemma closed_partial_deps U W dq0 S :
+  envelope_b U W = true -> resolve U W dq0 = Ok S ->
   forall p d, In p (pkgs_of U S) -> In d (p_deps p) -> is_conflict d = false -> satisfies_dep (pkgs_of U S) d.
 Proof.
   intros HE H p d Hp Hd Hc. pose proof (envelope_facts U W HE) as EF.
   unfold pkgs_of in Hp. apply in_map_iff in Hp. destruct Hp as [m [<- Hm]].
-  pose proof (resolve_closure U EF W dq0 scheds S H m Hm) as HS.
+  pose proof (resolve_closure U EF W dq0 S H m Hm) as HS.
   destruct (HS (cook_str d)) as [y [Hy Sy]].
   { rewrite getp_new_resolver. apply positive_deps_In. exists (cook_dep d). split; [|split; [apply d_neg_cook; exact Hc | reflexivity]].
     unfold cook_pkg; cbn [k_deps]. apply in_map. exact Hd. }
@@ -557,24 +559,24 @@ Proof.
   apply pkg_satisfies_b_spec. rewrite <- getp_new_resolver. exact Sy.
 Qed.
 
-Theorem closed_full_lemma U W dq0 scheds S :
-  envelope_b U W = true -> resolve U W dq0 scheds = Ok S -> Closed U W (pkgs_of U S).
+Theorem closed_full_lemma U W dq0 S :
+  envelope_b U W = true -> resolve U W dq0 = Ok S -> Closed U W (pkgs_of U S).
 Proof.
-  intros HE H. destruct (closed_partial_lemma2 U W dq0 scheds S HE H) as [A [B [C _]]].
+  intros HE H. destruct (closed_partial_lemma2 U W dq0 S HE H) as [A [B [C _]]].
   constructor; [exact C | eapply closed_partial_deps; eassumption | exact A | exact B].
 Qed.
 
 (* the statement of Properties/C02.v: the four clauses spelled out, the Spec's
    record, and the candidate actually chosen for every request *)
-Lemma closed_partial_lemma3 U W dq0 scheds S :
-  envelope_b U W = true -> resolve U W dq0 scheds = Ok S ->
+Lemma closed_partial_lemma3 U W dq0 S :
+  envelope_b U W = true -> resolve U W dq0 = Ok S ->
   NoDup (List.map p_name (pkgs_of U S)) /\ incl (pkgs_of U S) U /\
   (forall w, In w W -> satisfies_dep (pkgs_of U S) w) /\
   (forall p d, In p (pkgs_of U S) -> In d (p_deps p) -> is_conflict d = false -> satisfies_dep (pkgs_of U S) d) /\
   Closed U W (pkgs_of U S) /\
   (forall w, In w W -> exists dq i, incl dq0 dq /\ In i (candidates (new_resolver U) dq (cook_str w)) /\ In i S).
 Proof.
-  intros HE H. destruct (closed_partial_lemma2 U W dq0 scheds S HE H) as [A [B [C D]]].
+  intros HE H. destruct (closed_partial_lemma2 U W dq0 S HE H) as [A [B [C D]]].
   split; [exact A|]. split; [exact B|]. split; [exact C|]. split; [eapply closed_partial_deps; eassumption|].
   split; [eapply closed_full_lemma; eassumption | exact D].
 Qed.
